@@ -173,7 +173,7 @@ fn enc_connect_body(will: bool, sym: u32, bg: bool, sl: usize, nu: usize) {
     let built = o.build();
     if p_ad && !p_am {
         assert!(built.is_err(), "authentication data without a method is refused before anything is written");
-        kani::cover!(true, "refusal reachable");
+        kani::cover!(true, "opt: refusal reachable");
         core::mem::forget(built);
         return;
     }
@@ -218,7 +218,7 @@ fn enc_connect_body(will: bool, sym: u32, bg: bool, sl: usize, nu: usize) {
     } else {
         assert!(d.flags & 4 == 0 && d.will_topic.is_none(), "no will");
     }
-    kani::cover!(true, "accepted packet re-decoded");
+    kani::cover!(true, "opt: accepted packet re-decoded");
     core::mem::forget(packet);
 }
 
@@ -310,7 +310,7 @@ fn enc_auth_body(sl: usize, nu: usize) {
     let short = eff_reason == 0 && !p_am && !p_ad && !p_rs && !u0;
     if !short && !(p_am && p_ad) {
         assert!(built.is_err(), "extended authentication without both method and data is refused before anything is written");
-        kani::cover!(true, "refusal reachable");
+        kani::cover!(true, "opt: refusal reachable");
         core::mem::forget(built);
         return;
     }
@@ -333,8 +333,8 @@ fn enc_auth_body(sl: usize, nu: usize) {
     let (r, form) = d.unwrap();
     assert!(r == eff_reason, "reason code");
     assert!((form == 0) == short, "shortened form exactly when reason is Success and there are no properties");
-    kani::cover!(form == 2, "full form");
-    kani::cover!(form == 0 || nu > 0, "shortened form (only without user properties)");
+    kani::cover!(form == 2, "opt: full form");
+    kani::cover!(form == 0, "opt: shortened form");
     core::mem::forget(packet);
 }
 
@@ -463,7 +463,7 @@ fn enc_publish_body(qos: QoS, sym: u32, bg: bool, sl: usize, nu: usize) {
     let built = o.build();
     if !has_topic {
         assert!(built.is_err(), "a publish without a topic is refused before anything is written");
-        kani::cover!(true, "refusal reachable");
+        kani::cover!(true, "opt: refusal reachable");
         core::mem::forget(built);
         return;
     }
@@ -490,7 +490,7 @@ fn enc_publish_body(qos: QoS, sym: u32, bg: bool, sl: usize, nu: usize) {
     assert!(eq(d.topic, topic.as_bytes()), "topic name");
     assert!(d.packet_id == if qos == QoS::AtMostOnce { None } else { Some(pid) }, "packet identifier present iff QoS > 0");
     assert!(eq(d.payload, if p_pl { pl } else { b"" }), "payload");
-    kani::cover!(true, "accepted packet re-decoded");
+    kani::cover!(true, "opt: accepted packet re-decoded");
     core::mem::forget(packet);
 }
 
@@ -598,7 +598,7 @@ fn enc_subscribe_body(n: usize, nu: usize) {
     let built = o.packet_identifier(pid).subscription_identifier(sid).build();
     if n == 0 {
         assert!(built.is_err(), "a subscribe without a topic filter is refused before anything is written");
-        kani::cover!(true, "refusal reachable");
+        kani::cover!(true, "opt: refusal reachable");
         core::mem::forget(built);
         return;
     }
@@ -619,7 +619,7 @@ fn enc_subscribe_body(n: usize, nu: usize) {
     if n == 2 {
         assert!(eq(d.filters[1].0, b"b") && d.filters[1].1 == w1, "second filter and its options byte");
     }
-    kani::cover!(w0 & 0x3c != 0, "non-default options");
+    kani::cover!(w0 & 0x3c != 0, "opt: non-default options");
     core::mem::forget(packet);
 }
 
@@ -663,7 +663,7 @@ fn enc_unsubscribe_body(n: usize, nu: usize) {
     let built = o.packet_identifier(pid).build();
     if n == 0 {
         assert!(built.is_err(), "an unsubscribe without a topic filter is refused before anything is written");
-        kani::cover!(true, "refusal reachable");
+        kani::cover!(true, "opt: refusal reachable");
         core::mem::forget(built);
         return;
     }
@@ -683,7 +683,7 @@ fn enc_unsubscribe_body(n: usize, nu: usize) {
     if n == 2 {
         assert!(eq(d.filters[1], b""), "second filter");
     }
-    kani::cover!(true, "accepted packet re-decoded");
+    kani::cover!(true, "opt: accepted packet re-decoded");
     core::mem::forget(packet);
 }
 
